@@ -48,6 +48,11 @@ type E2ECall struct {
 	// not cut a later one.
 	DeadlineUs int `json:"deadline_us,omitempty"`
 	PauseUs    int `json:"pause_us,omitempty"`
+	// RetryDeadlineUs > 0 (send only): the first receive runs under a context whose
+	// deadline expires while nothing of the reply has arrived yet (the handler's
+	// script starts with a longer sleep); the receive is then repeated with a live
+	// context and must return the reply intact.
+	RetryDeadlineUs int `json:"retry_deadline_us,omitempty"`
 }
 
 func (s *E2EScenario) Cfg() sim.Config { return s.Config }
@@ -198,6 +203,11 @@ func (s *E2EScenario) Setup(k *sim.Kernel) {
 					break
 				}
 				broken := false
+				if call.RetryDeadlineUs > 0 && expected[i] > 0 {
+					var out json.RawMessage
+					_, err := recv(sim.NewCtx(time.Duration(call.RetryDeadlineUs)*time.Microsecond), &out)
+					sim.Rec("c.retry", sf(`{"client":%d,"call":%d,"err":%q}`, ci, i, errClass(err)))
+				}
 				for j := 0; j < expected[i]; j++ {
 					var out json.RawMessage
 					flags, err := recv(ctx, &out)
@@ -348,6 +358,17 @@ func (s *E2EScenario) Check(k *sim.Kernel) []sim.Violation {
 			done[ci] = true
 		case "c.sendfail":
 			out = append(out, vio("client", "send-failed", "Send failed: %s", e.Data))
+		case "c.retry":
+			var r struct {
+				Client, Call int
+				Err          string
+			}
+			json.Unmarshal([]byte(e.Data), &r)
+			if r.Err == "nil" {
+				out = append(out, vio("client", "receive-before-reply", "client%d call %d: a receive whose deadline expires before the handler replies reported success", r.Client, r.Call))
+			} else if r.Err != "deadline" && r.Err != "timeout" && r.Err != "canceled" {
+				out = append(out, vio("client", "timed-out-receive-wrong-error", "client%d call %d: a receive whose deadline expired returned %q", r.Client, r.Call, r.Err))
+			}
 		}
 	}
 	// handler observations by connection
@@ -667,6 +688,12 @@ func genE2E(g *Gen, prop string, params func() string, script func(more bool) Sc
 				call.PauseUs = 7200e6
 			}
 			s.Scripts[cid] = script(more)
+			if call.Via == "send" && call.Flags&varlink.Oneway == 0 && g.Pct(10) {
+				call.RetryDeadlineUs = 1000
+				sc := s.Scripts[cid]
+				sc.Actions = append([]Action{{Op: "sleep", N: 5000}}, sc.Actions...)
+				s.Scripts[cid] = sc
+			}
 			cl.Calls = append(cl.Calls, call)
 		}
 		s.Clients = append(s.Clients, cl)
@@ -713,7 +740,15 @@ func genC03(seed uint64, tier string) Scenario {
 		if g.Pct(10) {
 			p = ""
 		}
-		sc.Actions = append(sc.Actions, Action{Op: "reply", Params: p})
+		switch {
+		case g.Pct(8):
+			// error replies carry parameters too (and oneway calls get none of them)
+			sc.Actions = append(sc.Actions, Action{Op: "error", Name: "a.b." + g.Pick("E", "Failed"), Params: p})
+		case g.Pct(4):
+			sc.Actions = append(sc.Actions, Action{Op: "builtin", Name: g.Pick("MethodNotFound", "MethodNotImplemented", "InvalidParameter"), Arg: g.String(8)})
+		default:
+			sc.Actions = append(sc.Actions, Action{Op: "reply", Params: p})
+		}
 		return sc
 	}
 	return genE2E(g, "C03", g.roundTripParams, script, 40)
